@@ -3,6 +3,7 @@
 // @also C06 C08
 // @engine B
 // @entry vfh_C07_reinit
+// @shared_state_watch
 // @tier Q
 // @opts max_steps=20000000
 // @reach reinit.compared
